@@ -91,6 +91,14 @@ namespace ip {
 			return;
 		}
 
+		if (m_bound_to != ip::udp::endpoint())
+		{
+			// the socket is already bound. It would keep the earlier endpoint
+			// registered (forever, close() only releases the last one)
+			ec = error::invalid_argument;
+			return;
+		}
+
 		ip::udp::endpoint addr = m_io_service.bind_udp_socket(this, ep, ec);
 		if (ec) return;
 		m_bound_to = addr;
